@@ -24,7 +24,11 @@ S.Scheduler = Rec
 case = dict(rep["case"])
 pf = dfs.schedule_from_case(case)
 case.pop("schedule", None)
-pts, v, obs = mod.run_case(case, pf)
+fn = getattr(mod, "run_case", None)
+if rep["property"] == "C16":
+    from vf.props import c16_race as _r
+    fn = _r.run_race
+pts, v, obs = fn(case, pf)
 sc = last["s"]
 names = {t.id: t.name for t in sc.threads}
 dev = sorted(pf[1])
